@@ -162,9 +162,12 @@ def run_proof(built, proof, workdir, extra_defs=(), trace=False):
     assertions -- looks for a failing obligation on a real path.  Found: reported (mode 'bounded', never counted as proved).  Not found:
     the tool error stands."""
     r = _run_proof(built, proof, workdir, extra_defs, trace)
-    if r['status'] == 'error' and proof.get('loops') == 'contracts' and proof.get('enforce') and not trace and 'goto-cc failed' in (r.get('error') or ''):
+    err = r.get('error') or ''
+    misfit = 'goto-cc failed' in err or 'has no loop contract' in err or 'a loop without contract' in err
+    if r['status'] == 'error' and proof.get('loops') == 'contracts' and proof.get('enforce') and not trace and misfit:
         try:
-            b2 = build_unit(built['unit'].NAME, os.path.join(workdir, 'fb_' + proof['name']), strip_loops={proof['enforce']})
+            # every loop contract of the unit is left out (a refactoring may have moved the loop into a helper), all loops are unwound
+            b2 = build_unit(built['unit'].NAME, os.path.join(workdir, 'fb_' + proof['name']), strip_loops='*')
             p2 = dict(proof, loops=('search', SEARCH_UNWIND))
             r2 = _run_proof(b2, p2, os.path.join(workdir, 'fb_' + proof['name']), extra_defs, False)
         except (lower.Abort, cast.AstError, PipelineError) as e:
